@@ -385,7 +385,61 @@ func (w *walker) node(n ast.Node) {
 		return
 	case *ast.RangeStmt:
 		w.node(v.X)
+		saved := w.copyHeld()
 		w.node(v.Body)
+		w.held = intersectHeld(saved, w.held) // the body may run zero times
+		return
+	case *ast.ForStmt:
+		w.node(v.Init)
+		w.node(v.Cond)
+		saved := w.copyHeld()
+		w.node(v.Body)
+		w.node(v.Post)
+		w.held = intersectHeld(saved, w.held)
+		return
+	case *ast.IfStmt:
+		// branch-aware lock tracking: a branch that ends in return / break / continue / panic does not
+		// carry its lock state to the code after the if (early "unlock and return" paths)
+		w.node(v.Init)
+		w.node(v.Cond)
+		saved := w.copyHeld()
+		w.node(v.Body)
+		bodyHeld, bodyTerm := w.copyHeld(), terminates(v.Body.List)
+		w.held = append([]lockHeld(nil), saved...)
+		elseHeld, elseTerm := saved, false
+		if v.Else != nil {
+			w.node(v.Else)
+			elseHeld = w.copyHeld()
+			switch e := v.Else.(type) {
+			case *ast.BlockStmt:
+				elseTerm = terminates(e.List)
+			case *ast.IfStmt:
+				elseTerm = false // an else-if chain: its own state was merged by the nested case
+			}
+		}
+		switch {
+		case bodyTerm && elseTerm:
+			w.held = append([]lockHeld(nil), saved...)
+		case bodyTerm:
+			w.held = elseHeld
+		case elseTerm:
+			w.held = bodyHeld
+		default:
+			w.held = intersectHeld(bodyHeld, elseHeld)
+		}
+		return
+	case *ast.SwitchStmt:
+		w.node(v.Init)
+		w.node(v.Tag)
+		w.clauses(v.Body)
+		return
+	case *ast.TypeSwitchStmt:
+		w.node(v.Init)
+		w.node(v.Assign)
+		w.clauses(v.Body)
+		return
+	case *ast.SelectStmt:
+		w.clauses(v.Body)
 		return
 	}
 	// generic traversal in source order
@@ -396,6 +450,96 @@ func (w *walker) node(n ast.Node) {
 		w.node(c)
 		return false
 	})
+}
+
+// the clauses of a switch / select: each starts from the state before the statement; the state afterwards is
+// what all clauses that fall out of the statement agree on (and the state before it when no default clause exists)
+func (w *walker) clauses(body *ast.BlockStmt) {
+	saved := w.copyHeld()
+	var results [][]lockHeld
+	hasDefault := false
+	for _, c := range body.List {
+		w.held = append([]lockHeld(nil), saved...)
+		var stmts []ast.Stmt
+		switch cc := c.(type) {
+		case *ast.CaseClause:
+			if cc.List == nil {
+				hasDefault = true
+			}
+			for _, e := range cc.List {
+				w.node(e)
+			}
+			stmts = cc.Body
+		case *ast.CommClause:
+			if cc.Comm == nil {
+				hasDefault = true
+			}
+			w.node(cc.Comm)
+			stmts = cc.Body
+		}
+		for _, st := range stmts {
+			w.node(st)
+		}
+		if !terminates(stmts) {
+			results = append(results, w.copyHeld())
+		}
+	}
+	if !hasDefault {
+		results = append(results, saved)
+	}
+	if len(results) == 0 {
+		w.held = saved
+		return
+	}
+	h := results[0]
+	for _, r := range results[1:] {
+		h = intersectHeld(h, r)
+	}
+	w.held = h
+}
+
+// does a statement list always leave the enclosing construct (return, break, continue, goto, panic, os.Exit)?
+func terminates(list []ast.Stmt) bool {
+	if len(list) == 0 {
+		return false
+	}
+	switch s := list[len(list)-1].(type) {
+	case *ast.ReturnStmt:
+		return true
+	case *ast.BranchStmt:
+		return s.Tok != token.FALLTHROUGH
+	case *ast.ExprStmt:
+		if call, ok := s.X.(*ast.CallExpr); ok {
+			switch f := call.Fun.(type) {
+			case *ast.Ident:
+				return f.Name == "panic"
+			case *ast.SelectorExpr:
+				if x, ok := f.X.(*ast.Ident); ok {
+					return (x.Name == "os" && f.Sel.Name == "Exit") || (x.Name == "log" && strings.HasPrefix(f.Sel.Name, "Fatal"))
+				}
+			}
+		}
+	case *ast.BlockStmt:
+		return terminates(s.List)
+	}
+	return false
+}
+
+// locks held on both paths (same lock, same critical section; the weaker mode when they differ)
+func intersectHeld(a, b []lockHeld) []lockHeld {
+	var out []lockHeld
+	for _, x := range a {
+		for _, y := range b {
+			if x.name == y.name && x.acq == y.acq {
+				if y.mode == "R" {
+					x.mode = "R"
+				}
+				out = append(out, x)
+				break
+			}
+		}
+	}
+	return out
 }
 
 // prepass: find written selectors that appear nested (method-call effects are added during the walk)
